@@ -169,6 +169,8 @@ class MWorld:
                     return 0
             if n in ('getPooledString',):
                 return m.ev(c['args'][0])
+            if n == 'get' and 'GetCachedString' in cls:
+                return ''
             if n in ('getMemoryManager',):
                 return 'MM'
             if n == 'shouldStripSourceNode':
